@@ -3,7 +3,7 @@
    Model: GU.C19.Model (mirrors pagination.go / stream.go), tied to the code by the correspondence runs of harness/cmd/c19. *)
 From Coq Require Import List ZArith Bool Lia.
 Import ListNotations.
-From GU Require Import C19.Model C19.Proofs C19.ProofsTimed.
+From GU Require Import C19.Model C19.IR C19.Gen C19.Interp C19.Proofs C19.ProofsTimed C19.ProofsGen.
 
 (* Refinement: for every state of a static/dynamic paginator and EVERY sequence of HasNext/GetNext/Stop/Close calls,
    the observable outputs are those of a cursor into "the items of the current iterator followed by the items of all
@@ -89,6 +89,42 @@ Theorem stream_within_grace_keeps_going : forall futs T reach i r env d0,
   tres_bool t = b /\ t <> TExpired /\ t <> TEnvExhausted /\ t_it s' = i' /\ t_rest s' = r' /\ t_futs s' = f'.
 Proof. exact tloop_within_grace. Qed.
 Print Assumptions stream_within_grace_keeps_going.
+
+(* ---- The code AS TRANSLATED FROM THE SOURCE on this run (coq/C19/Gen.v: the bodies of AbstractPaginator.HasNext,
+   fetchNextPage, setCurrentPage, SetCurrentPage, GetNext and of the loop of AbstractStreamPaginator.HasNext as statement
+   lists of the IR of C19/IR.v, interpreted by C19/Interp.v).  An edit of those functions changes the generated lists (or
+   makes the translator fail), so these theorems are re-proved against what the code says now.
+   First: interpreted with enough fuel (one unit per page reachable through next links, resp. per future segment, plus
+   one — the recursion `return a.HasNext()` and the loop terminate), the generated bodies ARE the model's functions. *)
+Theorem generated_code_is_the_model : forall e s,
+  gen_abs_has_next (abs_fuel s) s = abs_has_next s /\
+  gen_abs_get_next s = get_next false e s /\
+  gen_stream_has_next (stream_fuel s) e s = stream_has_next e s.
+Proof.
+  intros e s. split; [apply gen_abs_has_next_is_model'|]. split; [apply gen_abs_get_next_is_model|].
+  apply gen_stream_has_next_is_model'.
+Qed.
+Print Assumptions generated_code_is_the_model.
+
+(* ... hence the refinement to the cursor specification holds of the generated code: for EVERY state and EVERY sequence of
+   HasNext / GetNext / Stop / Close calls the paginator assembled from the translated bodies behaves as a cursor into the
+   items of the pages. *)
+Theorem generated_paginator_refines_cursor : forall s ops,
+  fst (gen_run_plain s ops) = spec_run (remaining s, cancelled s) ops.
+Proof. intros s ops. rewrite (gen_run_plain_is_model false). apply paginator_refines_cursor_l. Qed.
+Print Assumptions generated_paginator_refines_cursor.
+
+(* ... and the generated stream HasNext keeps following future pages while the stream is not dry / within its grace
+   period: it finds the next item wherever it is (current page, next chain, any future segment). *)
+Theorem generated_stream_has_next_finds_future_items : forall e s b s',
+  cancelled s = false -> dry s && e = false -> good_futures (futures s) = true ->
+  gen_stream_has_next (stream_fuel s) e s = (b, s') ->
+  sremaining s' = sremaining s /\ (if b then exists x xs, it s' = Some (x :: xs) else sremaining s = []).
+Proof.
+  intros e s b s' Hc Hd Hg H. rewrite gen_stream_has_next_is_model' in H.
+  destruct (stream_has_next_spec e s b s' Hc Hd Hg H) as (_ & _ & _ & H4 & H5). auto.
+Qed.
+Print Assumptions generated_stream_has_next_finds_future_items.
 
 (* Constructor failures are reported as errors (model side; the implementation side is the harness oracle,
    which found the static paginator returning (nil, nil) before the fix). *)
